@@ -107,15 +107,15 @@ def nthOf (xs : List Num) (index : Int) : Res :=
     (match xs[(index + xs.length).toNat]? with | some c => ofNum c | none => .missing)
   else .missing
 
+/-- first position of the maximum (`np.argmax`; `Counter.most_common(1)` after counting). -/
+def firstArgmax (counts : List Nat) : Nat :=
+  (counts.zipIdx.foldl (fun (acc : Nat × Nat) p => if p.1 > acc.1 then (p.1, p.2) else acc) (counts.headD 0, 0)).2
+
 /-- `statistics.mode`: the first encountered of the most common values. -/
 def modeOf (xs : List Num) : Res :=
   match xs with
   | [] => .missing
-  | x :: rest =>
-    let best := (x :: rest).foldl (fun (acc : Num × Nat) y =>
-      let c := (x :: rest).count y
-      if c > acc.2 then (y, c) else acc) (x, 0)
-    ofNum best.1
+  | _ :: _ => ofNum xs[firstArgmax (xs.map (fun y => xs.count y))]!
 
 /-- `len(set(x))`; NaN objects are pairwise distinct in a Python set (`naDistinct`), the missing
     value of other dtypes equals itself. -/
